@@ -160,6 +160,9 @@ func inList(y string) bool {
 func TestCheck(t *testing.T) {
 	r := vkit.Start("C09")
 	defer r.Finish(t)
+	if r.ReplayCold() {
+		return
+	}
 	if r.Replay != "" {
 		var c Case
 		if err := r.LoadReplay(&c); err != nil {
@@ -355,6 +358,23 @@ func TestCheck(t *testing.T) {
 			}
 		})
 	})
+
+	r.Phase(fmt.Sprintf("W: %d conventional special texts (empty, null, nil, 0000-00-00, now, today, ...) x rules x limits through every entry point", len(ref.ConventionalTexts)), func() {
+		for _, lim := range []int{0, 15, 3} {
+			restore := setLimit(lim)
+			r.Serial(func(w *vkit.W) {
+				for _, text := range ref.ConventionalTexts {
+					for _, rule := range rules {
+						judge(Case{Text: vkit.B(text), Rule: rule, Limit: lim}, w)
+						w.EvalRandom(vkit.Hash64("W", text, strconv.Itoa(rule), strconv.Itoa(lim)), true)
+					}
+				}
+			})
+			restore()
+		}
+	})
+
+	r.ColdPhase(coldFirst)
 
 	// Phase D: rapid - random valid and near-valid texts under random configuration (shrinks to a minimal text).
 	r.Phase("D: rapid texts", func() {
